@@ -80,7 +80,13 @@ func newReadWriteSegment(basePath string, baseOffset int64, segmentSize uint32, 
 		return nil, errors.Wrapf(err, "failed to open segment file %s", ms.c.txnPath)
 	}
 
-	if !c.segmentExists {
+	// A crash can leave the file without its size (created, not yet extended): the
+	// mapping must never reach behind the end of the file
+	fileInfo, err := ms.txnFile.Stat()
+	if err != nil {
+		return nil, errors.Wrapf(err, "failed to stat segment file %s", ms.c.txnPath)
+	}
+	if !c.segmentExists || fileInfo.Size() < int64(segmentSize) {
 		if err = initFileWithZeroes(ms.txnFile, segmentSize); err != nil {
 			return nil, err
 		}
